@@ -2,11 +2,19 @@ use indicatif::ProgressBar;
 use kmer::{minimiser::MinimiserGenerator, numeric_to_kmer};
 use ktio::seq::*;
 use scc::HashMap as SccMap;
+#[cfg(not(kmertools_verif))]
 use std::{
     fs,
     io::{BufReader, BufWriter, Read, Write},
     sync::{atomic::AtomicU64, Arc, Mutex},
 };
+#[cfg(kmertools_verif)]
+use std::{
+    fs,
+    io::{BufReader, BufWriter, Read, Write},
+};
+#[cfg(kmertools_verif)]
+use verif_rt::sync::{atomic::AtomicU64, Arc, Mutex};
 
 pub fn bin_sequences(wsize: usize, msize: usize, in_path: &str, out_path: &str, threads: usize) {
     let mut threads = threads;
